@@ -458,6 +458,48 @@ def gen_access2(rng):
     out.append("top frameend")
     return "\n".join(out) + "\n"
 
+def gen_cascade(rng):
+    """C11/C08: chains of polled reactions: the reactor of `despawn(e_k)` / `removal(e_k)` despawns e_{k+1} or removes its
+    component, 2-4 levels deep, so that the last detection of a tree happens at a nested runner exit; some reactors
+    re-trigger themselves (postponed + replayed run causes the next despawn). Trees are started by system commands."""
+    g = G(rng); out = []
+    n = rng.randint(2, 4)                      # chain length
+    nE = n + 1
+    kinds = [rng.choice(["dsp", "erem"]) for _ in range(n)]
+    # def k (k < n): reacts to e_k, causes the event for e_{k+1}; def n: kicker (causes the event for e_0); def n+1: noop
+    def cause(k):
+        if k >= n: return "broadcast 0 %d" % g.newpid()
+        return "despawn e%d" % k if kinds[k] == "dsp" else "remove e%d 0" % k
+    for k in range(n):
+        runs = [[cause(k + 1)]]
+        if rng.random() < 0.35: runs = [["run s%d" % k, cause(k + 1)]] if rng.random() < 0.5 else [["run s%d" % k], [cause(k + 1)]]
+        if rng.random() < 0.3: runs.append([])
+        out.append("def 0 %d" % len(runs))
+        for sc in runs: out.append("run %d" % len(sc)); out += sc
+    out.append("def 0 2"); out += ["run 1", cause(0), "run 0"]
+    out.append("def 0 1"); out += ["run 0"]
+    setup = ["spawn"] * nE
+    for e in range(nE): setup.append("insert e%d 0 1" % e)
+    for k in range(n):
+        trig = "dsp:e%d" % k if kinds[k] == "dsp" else "erem:e%d:0" % k
+        if rng.random() < 0.2: trig += " rem:0" if kinds[k] == "erem" else " bc:1"
+        setup.append("on %s %d %s" % (rng.choice("pc"), k, trig))
+    setup.append("spawnsys %d" % n)           # s_n: kicker
+    setup.append("spawnsys %d" % (n + 1))     # s_{n+1}: noop
+    out.append("top acts %d" % len(setup)); out += setup
+    x = rng.random()
+    if x < 0.5: out += ["top acts 1", "run s%d" % n]
+    elif x < 0.8: out += ["top acts 2", cause(0), "run s%d" % (n + 1)]
+    else: out += ["top acts 2", "run s%d" % (n + 1), cause(0)]
+    for _ in range(rng.randint(1, 3)):
+        y = rng.random()
+        if y < 0.4: out += ["top acts 1", "run s%d" % (n + 1)]
+        elif y < 0.6: out.append("top poll")
+        elif y < 0.8: out += ["top acts 1", "broadcast 1 %d" % g.newpid()]
+        else: out.append("top gc")
+    out.append("top frameend")
+    return "\n".join(out) + "\n"
+
 def gen_visibility(rng):
     """C03/C04/C05: several listeners per event; bodies run other systems (probes) and send further events, so readers
     are sampled at every position of the tree while data entities are still alive."""
@@ -633,7 +675,8 @@ def gen_syscall(rng):
                 # syscall / named_syscall scripts only call higher-ranked keys (no cycles through re-entrant fresh state);
                 # spawned systems may call anything: a cycle through a running spawned system is cut by its error
                 c = call(0 if (k == "s" or (run >= 1 and rng.random() < 0.35)) else r + 1)
-                if c is None or x >= 0.75: ops.append("w %d" % rng.randrange(100))
+                if x >= 0.9 or (k == "s" and x >= 0.8): ops.append("x %d" % rng.randrange(4))
+                elif c is None or x >= 0.75: ops.append("w %d" % rng.randrange(100))
                 elif x < 0.3 and excl: ops.append("d " + c)
                 else: ops.append("q " + c)
             runs.append(ops)
@@ -661,6 +704,7 @@ PROFILES = {
     "sharedkey": gen_sharedkey,
     "removal2": gen_removal2,
     "dsp": gen_dsp,
+    "cascade": gen_cascade,
     "access2": gen_access2,
     "access": lambda rng: gen_mix(rng, weights=dict(access=6, trigger=5, register=1.5), body_weights=dict(access=4, trigger=4)),
     "once": lambda rng: gen_mix(rng, weights=dict(register=3, trigger=6, revoke=2, life=1), body_weights=dict(trigger=5, register=1.5, revoke=1)),
